@@ -11,7 +11,7 @@ MANIFEST = {}
 
 
 def graph_property(work, args, *, pid, module, mcmodule, pkg, formulas, mc_cfgs, gen_cfgs, reset_op,
-                   level_note, design_ref, assumptions, recorder=None, extra_prop_invariants=(), never_ok=()):
+                   level_note, design_ref, assumptions, recorder=None, extra_prop_invariants=(), never_ok=(), write=True):
     """Generic check for a property decided on a graph-replayed specification.
 
     formulas: dict(invariants=[...], properties=[...], p_properties=[...]) - the property's formulas in
@@ -134,6 +134,13 @@ def graph_property(work, args, *, pid, module, mcmodule, pkg, formulas, mc_cfgs,
     ev["rule"] = ("every transition of the TLC-generated graph (accepted operations; rejected ones %s) is executed on a branch of the "
                   "real multistore and the projected real state compared with the specification's; TLC then evaluates the property's "
                   "formulas on the recorded real behaviours" % ("all" if ev["exhaustive"] else "sampled per state in this tier"))
+    ev["assumptions_part"] = list(assumptions)
+    if not write:
+        return (1 if violation else 0), ev, violation, deviations
+    return finish(work, pid, ev, assumptions, violation, deviations)
+
+
+def finish(work, pid, ev, assumptions, violation, deviations):
     if violation:
         path = vlib.save_replay(work, "violation", violation)
         vlib.write_evidence(work, "model_checking", ev, assumptions, 1)
@@ -147,6 +154,18 @@ def graph_property(work, args, *, pid, module, mcmodule, pkg, formulas, mc_cfgs,
     return 0
 
 
+def merge_evidence(a, b):
+    out = dict(a)
+    for k in ("states", "transitions", "traces_validated_against_impl", "real_transitions_replayed", "deviations_from_spec"):
+        out[k] = a.get(k, 0) + b.get(k, 0)
+    for k in ("samples", "mc_runs", "gen_runs", "replay", "formulas"):
+        out[k] = list(a.get(k, [])) + list(b.get(k, []))
+    out["samples"] = out["samples"][:6]
+    out["exhaustive"] = bool(a.get("exhaustive")) and bool(b.get("exhaustive"))
+    acc = dict(a.get("accepted_by_operation", {}))
+    acc.update({"attest." + k: v for k, v in b.get("accepted_by_operation", {}).items()})
+    out["accepted_by_operation"] = acc
+    return out
 
 
 def replay_path(work, path, *, pid, module, pkg, formulas, reset_op, extra_prop_invariants=()):
